@@ -68,7 +68,8 @@ def scenario(cachejit, argon, ks_inputs, thorough, idx, seed=1):
             L.append('DestroyVm v1')
     # the version bit switched on LIVE VMs (fast-mode JIT, light interpreter given both a cache and a dataset): the digest must be
     # the one of the version in force, for every engine
-    L += ['CreateVm v4 CF none d1 v2=0 hard=1 secure=0', 'Hash v4 I1 key=K1', 'SetV2 v4 1', 'Hash v4 I1 key=K1', 'SetV2 v4 0', 'Hash v4 I2 key=K1', 'DestroyVm v4',
+    L += ['CreateVm v4 CF none d1 v2=0 hard=1 secure=0', 'Hash v4 I1 key=K1', 'SetV2 v4 1', 'Hash v4 I1 key=K1', 'SetV2 v4 0', 'SetCache v4 c1', 'Hash v4 I2 key=K1', 'DestroyVm v4',
+          'CreateVm v4 IF c1 d1 v2=1 hard=0 secure=0', 'SetCache v4 c1', 'Hash v4 I1 key=K1', 'DestroyVm v4',
           'CreateVm v4 IL c1 d1 v2=1 hard=0 secure=0', 'Hash v4 I2 key=K1', 'SetV2 v4 0', 'Hash v4 I2 key=K1', 'DestroyVm v4',
           'CreateVm v4 CL c1 d1 v2=0 hard=0 secure=1', 'Hash v4 I1 key=K1', 'SetV2 v4 1', 'Hash v4 I1 key=K1', 'DestroyVm v4']
     # many seeded inputs through the interpreter and the JIT on the same cache: engine disagreements that need a particular
@@ -171,6 +172,13 @@ def run():
     from checks import c04
     lrec = c04.record_vm(ck, wd, ['light'])
     c04.validate_vm(ck, 'c01light', lrec['light'], 'light-mode interpreter vs light-mode JIT (soft and hard AES) over a real cache on program buffers with directed dataset offsets')
+    # the interpreted and the compiled dataset-item function on synthetic well-formed programs (immediates around every sign boundary):
+    # the two cache configurations must produce the same items, also for programs no key of the scenarios contains
+    from checks import c09
+    slines = c09.record(ck, wd, 0, 'synth')
+    sres = vlib.validate_sharded('TraceSs', 'TraceSsNoGen.cfg', slines, 'c01synth', shards=16, timeout=3000, xmx='6g', group=c09.groups(slines), independent=False)
+    ck.add_traces('TraceSs(synthetic items)', sres, 'synthetic SuperscalarHash program sets: interpreted item function = compiled item function = specification')
+    ck.reject('TraceSs(synthetic items)', sres, lambda rj: 'synthitem')
     hs = [json.loads(l) for l in lines if l.startswith('{"e": "hash"')]
     ck.cov['hashes'] = len(hs)
     ck.cov['vm_flag_sets'] = sorted(set(h['vmflags'] % 128 for h in hs))
